@@ -120,11 +120,11 @@ func l3New(f []string) vlib.Res {
 				switch {
 				case strings.HasPrefix(s.decl, "S") && sent != nil:
 					_, a := normAddr(sent.Address)
-					d = &optT{isECS: true, fam: sent.Family, mask: sent.SourceNetmask, scope: uint8(vlib.Atoi(s.decl[1:])), addr: a}
+					d = &optT{isECS: true, fam: sent.Family, mask: sent.SourceNetmask, scope: declBits(s.decl, sent.Family), addr: a}
 				case strings.HasPrefix(s.decl, "T") && sent != nil:
 					// family and address echoed, but SOURCE rewritten to the scope (a common deviation from RFC 7871 7.3)
 					_, a := normAddr(sent.Address)
-					b := uint8(vlib.Atoi(s.decl[1:]))
+					b := declBits(s.decl, sent.Family)
 					d = &optT{isECS: true, fam: sent.Family, mask: b, scope: b, addr: a}
 				case strings.HasPrefix(s.decl, "E"):
 					o := parseOpt(s.decl)
